@@ -13,6 +13,7 @@ import (
 	"fmt"
 	"sort"
 	"testing"
+	"time"
 
 	"github.com/33cn/chain33/types"
 	"pgregory.net/rapid"
@@ -168,7 +169,10 @@ func vfGenC22(t *rapid.T) *vfC22Case {
 	return c
 }
 
+var vfSlowC22 int
+
 type vfC22Outcome struct {
+	skipped      bool // the submission took so long that the pool's 2 s nonce timeout may have fired
 	entered      bool
 	msg          string
 	headerParses bool // group only: the 32-byte group header is, by chance or by grinding, well-formed protobuf
@@ -314,7 +318,16 @@ func vfRunC22(c *vfC22Case) vfC22Outcome {
 	}
 
 	before := vfHashSet(e.entries())
+	start := time.Now()
 	ok, msg := e.submit(submission.tx)
+	if time.Since(start) > 1500*time.Millisecond {
+		// the pool waits at most 2 s for the sender's current nonce and then assumes 0: on a stalled machine the
+		// nonce clauses cannot be judged, and a timing accident must never become a verdict
+		if vfSlowC22++; vfSlowC22 > 20 {
+			lib.Inconclusive("EventTx repeatedly took longer than 1.5 s: machine too loaded for the nonce round trip")
+		}
+		return vfC22Outcome{skipped: true}
+	}
 	entered := ok
 	for h := range vfHashSet(e.entries()) {
 		if !before[h] {
@@ -434,6 +447,10 @@ func TestPropAdmission(t *testing.T) {
 		c := vfGenC22(t)
 		lib.Eval()
 		out := vfRunC22(c)
+		if out.skipped {
+			lib.Class("slow_submission_skipped")
+			return
+		}
 		shape, single := c.classes()
 		lib.Class("shape_" + shape)
 		if out.headerParses {
@@ -473,7 +490,7 @@ func TestKnown_C22GroupWrapperUnverified(t *testing.T) {
 	for variant := 0; variant <= 1; variant++ {
 		c := &vfC22Case{Height: 10, BlockTime: vfBaseTime, PerAcc: 3, Tx: []vfTxSpec{{Sender: 0, To: 1, Nonce: 1}, {Sender: 1, To: 0, Nonce: 2}},
 			Violations: []vfViolation{{Clause: clWrapper, Variant: variant}}}
-		if out := vfRunC22(c); out.entered {
+		if out := vfRunC22(c); out.entered && !out.skipped {
 			lib.KnownOrViolation(t, "C22", "TestKnown_C22GroupWrapperUnverified", vfFindingWrapper, c,
 				"a group whose wrapper transaction has an invalid signature (or claims another account's public key) is admitted: only the members inside Header are verified, the wrapper that is pooled and indexed by its From() never is")
 		}
